@@ -94,6 +94,13 @@ func fileCases(r *mon.Run) []fileCase {
 			add(3, fmt.Sprintf("size-%d", ks), n*ks-(ks/2), "rand", "")
 		}
 	}
+	// the largest chunk size the chunkers accept, and one byte less
+	add(2, "size-1048576", 1<<20+5, "rand", "max-chunk")
+	add(2, "size-1048575", 1<<20+5, "rand", "max-chunk")
+	if !r.Quick() {
+		add(2, "size-1048576", 3<<20, "zero", "max-chunk")
+		add(3, "size-1048576", 1<<20, "rand", "max-chunk")
+	}
 	// content-defined chunkers (tiny rabin windows give many chunks from few KiB)
 	rab := []int{0, 1, 15, 16, 17, 100, 1000, 5000}
 	if !r.Quick() {
